@@ -73,6 +73,17 @@ def shape(t=1, s=1, nlv=(4,), sym=None, enc=0, nd=3, ibw=2, dictmode=0, codec=0,
               bounds=b, exclude=exclude, expect_paths_min=expect_paths_min)
 
 
+def evidence_extra(tier):
+    return {'outside_the_bounds': [
+        'GZIP and ZSTD payloads: the engine runs carquet\'s wrappers against library CONTRACT stubs, a value round trip through them proves nothing about the real libraries (C09 covers the wrappers)',
+        'Snappy / LZ4_RAW streams with copies: the reference encoders emit literal-only streams (the decompressors on arbitrary streams are C08 / C10)',
+        'pages with more than 17 levels / 8 symbolic levels, dictionaries with more than 4 entries, index bit widths above 3, BYTE_ARRAY values longer than 2 bytes, more than 3 data pages or 2 columns, several row groups',
+        'DATA_PAGE_V2 misreads that need a page of several hundred bytes (a garbage level-length prefix is then in range): only rejection is demanded, see F-PAGE-V2',
+        'the SIMD kernels behind the dispatcher (cpuid reports no SIMD: scalar dispatch; C15 relates the kernels to the scalar code)',
+        'the batch reader API (C02/C03) — C06 reads through carquet_reader_get_column + carquet_column_read_batch'],
+        'engine': 'E2/symx'}
+
+
 def obligations(tier):
     q = tier == 'quick'
     o = []
@@ -174,8 +185,8 @@ def obligations(tier):
         o.append(shape(t=2 if encs[0] else 5, s=1, nlv=nl, sym=0x1 if q else 0x5, enc=encs, nd=3, ibw=2, fork_max=2, openm=3, batch=-4))
     if not q:
         for t in (3, 7, 4):
-            o.append(shape(t=t, s=0, nlv=(3, 2, 3), enc=(0, 8, 0), nd=3, ibw=2, fork_max=2, openm=3, batch=-3))
-            o.append(shape(t=t, s=0, nlv=(2, 3, 2), enc=(8, 0, 8), nd=3, ibw=2, fork_max=2, openm=3, batch=-3))
+            o.append(shape(t=t, s=0, nlv=(3, 2, 3), enc=(0, 8, 0), nd=3, ibw=2, fork_max=2 if t == 4 else 8, openm=3, batch=-3 if t == 4 else -4))
+            o.append(shape(t=t, s=0, nlv=(2, 3, 2), enc=(8, 0, 8), nd=3, ibw=2, fork_max=2 if t == 4 else 8, openm=3, batch=-3 if t == 4 else -4))
         o.append(shape(t=6, s=0, nlv=(2, 2, 2), enc=(0, 8, 0), nd=2, ibw=1, openm=3, batch=-3))
     # ---- K. three data pages, leading column
     o.append(shape(t=1, s=1, nlv=(2, 3, 2), dl=0, extra=1))
@@ -199,7 +210,8 @@ def obligations(tier):
                 o.append(shape(t=t, s=1, nlv=(3, 2) if t in (0, 6) else (4, 3), codec=codec, dl=(t + codec) % 4, tag='/sweep'))
         for t in range(1, 8):                                # every dictionary-capable type x both tags x both modes of announcing... (AT_DATA is the open finding)
             for enc in (2, 8):
-                o.append(shape(t=t, s=1 + (t % 2), nlv=(3, 3) if t != 6 else (2, 2), enc=enc, nd=4 if t != 6 else 2, ibw=3 if enc == 8 else 2, il=t % 4, fork_max=2 if t != 6 else 8, tag='/sweep'))
+                gather = t in (1, 2, 4, 5)          # typed gather: loads through the symbolic index stay if-then-else; memcpy-based types fork on the index
+                o.append(shape(t=t, s=1 + (t % 2), nlv=(3, 3) if gather else (2, 2), enc=enc, nd=4 if gather else 2 + (t == 7), ibw=3 if enc == 8 else 2, il=t % 4, fork_max=2 if gather else 8, tag='/sweep'))
         for sch in range(2, 9):                              # every nested schema x three types
             for t in (1, 5, 6):
                 o.append(shape(t=t, s=sch, nlv=(4, 4) if t != 6 else (3, 2), dl=sch % 4, rl=(sch + 1) % 4, tag='/sweep'))
